@@ -97,7 +97,9 @@ func (p *Impl) Prepare(dir string, pkgPath ...string) (err error) {
 func (p *Impl) Find(dir, pkgPath string) (f io.ReadCloser, err error) {
 	val, ok := p.cache.Load(pkgPath)
 	if !ok || isDirty(&f, pkgPath, val, p.h) {
-		err = p.Prepare(dir, pkgPath)
+		if err = p.Prepare(dir, pkgPath); err != nil {
+			return nil, err // listing failed: never fall back to the stale entry
+		}
 		if val, ok = p.cache.Load(pkgPath); ok {
 			return os.Open(val.(*pkgCache).expfile)
 		}
